@@ -1595,7 +1595,7 @@ func runC16(c *core.Ctx) {
 	nv := len(c16Variants)
 	sweepA := len(c16SweepSizes) * len(c16Names) * 2
 
-	c.Cases("rt", c.N(14000, 140000), func(k *core.Case) {
+	c.Cases("rt", c.N(14000, 700000), func(k *core.Case) {
 		r := k.R
 		// ---- draw the case
 		name := c16Names[r.Intn(len(c16Names))]
@@ -1726,7 +1726,7 @@ func runC16(c *core.Ctx) {
 	})
 
 	// one codec value, 32 goroutines at once
-	c.Cases("conc", c.N(400, 10000), func(k *core.Case) {
+	c.Cases("conc", c.N(400, 40000), func(k *core.Case) {
 		r := k.R
 		const G = 32
 		name := c16Names[r.Intn(len(c16Names))]
